@@ -8,6 +8,7 @@ import (
 	"fmt"
 	"net"
 	"strings"
+	"sync"
 	"testing"
 	"unicode"
 
@@ -16,6 +17,7 @@ import (
 	"go.minekube.com/common/minecraft/component"
 	"pgregory.net/rapid"
 
+	"go.minekube.com/gate/pkg/edition/java/auth"
 	"go.minekube.com/gate/pkg/edition/java/config"
 	"go.minekube.com/gate/pkg/edition/java/netmc"
 	"go.minekube.com/gate/pkg/edition/java/profile"
@@ -142,6 +144,7 @@ type c17Info struct {
 
 func (i *c17Info) Name() string   { return i.name }
 func (i *c17Info) Addr() net.Addr { return i.addr }
+
 // c17EndlessDials stops a recovery chain that does not terminate (every dial is
 // refused, so a correct chain ends after at most one attempt per listed server).
 type c17EndlessDials struct{}
@@ -410,7 +413,57 @@ func c17CfgLabels(c c17Config, m *c17Model) (labels []string, forced bool) {
 
 // ---------------------------------------------------------------- run: choice
 
+// c17InitNames: the servers of the configuration as the proxy registers them at
+// start-up (Proxy.init). The try list and the forced hosts refer to servers by
+// the configured spelling, and the choice of the next server compares names, so a
+// server must be registered under exactly the name it is configured with.
+func c17InitNames(c c17Config) *verifkit.Violation {
+	servers := map[string]string{}
+	for _, s := range c.Servers {
+		servers[s.Name] = s.Addr
+	}
+	cfg := config.DefaultConfig
+	cfg.Servers, cfg.Try, cfg.ForcedHosts = servers, append([]string(nil), c.Try...), map[string][]string{}
+	cfg.Lite.Enabled = false
+	p, err := New(Options{Config: &cfg, EventMgr: event.Nop, Authenticator: c17Auth()})
+	if err != nil {
+		return nil // not a configuration the proxy starts with; nothing to compare
+	}
+	if err := p.init(); err != nil {
+		return nil
+	}
+	for name := range servers {
+		rs := p.Server(name)
+		if rs == nil {
+			return verifkit.Violationf("init:server-missing", "server %q of the configuration is not registered after Proxy.init", name)
+		}
+		if got := rs.ServerInfo().Name(); got != name {
+			return verifkit.Violationf("init:server-name-changed", "server configured as %q is registered as %q; the try list / forced hosts name it %q and the next-server choice compares names exactly", name, got, name)
+		}
+	}
+	return nil
+}
+
+var (
+	c17AuthOnce sync.Once
+	c17AuthV    auth.Authenticator
+)
+
+func c17Auth() auth.Authenticator {
+	c17AuthOnce.Do(func() {
+		a, err := auth.New(auth.Options{})
+		if err != nil {
+			panic(err)
+		}
+		c17AuthV = a
+	})
+	return c17AuthV
+}
+
 func c17Run(c c17Case) verifkit.Result {
+	if v := c17InitNames(c.Cfg); v != nil {
+		return verifkit.Result{V: v}
+	}
 	f, err := c17Build(c.Cfg)
 	if err != nil {
 		return verifkit.Fail("harness:fixture", "%v", err)
